@@ -47,6 +47,12 @@ def _leaves():
         'Rs': ((), lambda: ReshapeOperator((3, 1), in_structure=SC(3))),
         'Mv': ((), lambda: MoveAxisOperator(0, 1, in_structure=SC(2, 3))),
         'Dt': (((3,),), lambda d: DiagonalOperator(d, in_structure={'a': SC(3), 'b': SC(2, 3)})),
+        # complex parameters on a REAL input structure: the output dtype (complex) is wider than the input dtype
+        'Pr': ((), lambda: IndexOperator(jnp.array([2, 0, 1]), in_structure=S(3))),
+        'Ar': (((3, 3),), lambda a: Dense(a, S(3), 'ij,j->i')),
+        'Wr': (((2, 3),), lambda a: Dense(a, S(3), 'ij,j->i')),
+        'Bdr': (((2, 3),), lambda d: BroadcastDiagonalOperator(d, axis_destination=-1, in_structure=S(3))),
+        'Etr': (((2, 2),), lambda a: Dense(a, {'a': S(2), 'b': S(2, 3)}, 'ij,j...->i...')),
     }
 
 
@@ -104,6 +110,13 @@ def show(e):
     return f'{e[0]}[' + ', '.join(show(c) for c in e[1]) + ']'
 
 
+def real_input_expressions():
+    """Complex parameters on real input structures (C04 only: the lazy transpose of such a map is not an adjoint over C)."""
+    lf = lambda n: ('leaf', n)  # noqa: E731
+    return [lf('Ar'), lf('Wr'), lf('Bdr'), lf('Etr'), ('@', lf('W'), lf('Ar')), ('@', lf('Bd'), lf('Ar')), ('+', lf('Ar'), lf('Ar')),
+            ('col', (lf('Ar'), lf('Wr'))), ('@', lf('Ar'), lf('Pr'))]
+
+
 def expressions(tier):
     lf = lambda n: ('leaf', n)  # noqa: E731
     base = [lf(n) for n in ('A', 'W', 'E', 'D', 'Bd', 'k', 'I3', 'P', 'U', 'Rs', 'Mv', 'Dt')]
@@ -136,6 +149,11 @@ def _cargs(name, st):
 
 def _cx(r, i):
     return jax.tree.map(lax.complex, r, i)
+
+
+def _xin(r, i, st):
+    """The input value for structure st: complex(r, i) on complex leaves, r alone on real leaves."""
+    return jax.tree.map(lambda a, b, l: lax.complex(a, b) if jnp.issubdtype(l.dtype, jnp.complexfloating) else a, r, i, st)
 
 
 def _flat(t):
@@ -221,21 +239,26 @@ def check_dense(e, twin=False):
     pargs = [('pr', ps, 'sym'), ('pi', ps, 'sym')]
     sc = S()
     sargs = [('ar', sc, 'sym'), ('ai', sc, 'sym'), ('br', sc, 'sym'), ('bi', sc, 'sym')]
+    real_in = not any(jnp.issubdtype(l.dtype, jnp.complexfloating) for l in jax.tree.leaves(xin))
 
     def lin_l(pr, pi, ar, ai, br, bi, xr, xi, yr, yi):
         op = build(e, pr, pi)
         a, b = lax.complex(ar, ai), lax.complex(br, bi)
-        return _flat(op.mv(jax.tree.map(lambda u, v: a * u + b * v, _cx(xr, xi), _cx(yr, yi))))
+        if real_in:
+            a, b = ar, br      # a real input space is only closed under real combinations
+        return _flat(op.mv(jax.tree.map(lambda u, v: a * u + b * v, _xin(xr, xi, xin), _xin(yr, yi, xin))))
 
     def lin_r(pr, pi, ar, ai, br, bi, xr, xi, yr, yi):
         op = build(e, pr, pi)
         a, b = lax.complex(ar, ai), lax.complex(br, bi)
-        return _flat(jax.tree.map(lambda u, v: a * u + b * v, op.mv(_cx(xr, xi)), op.mv(_cx(yr, yi))))
+        if real_in:
+            a, b = ar, br
+        return _flat(jax.tree.map(lambda u, v: a * u + b * v, op.mv(_xin(xr, xi, xin)), op.mv(_xin(yr, yi, xin))))
     args = pargs + sargs + _cargs('x', xin) + _cargs('y', xin)
     l, _, _ = E.run(ctx, lin_l, args)
     r, _, _ = E.run(ctx, lin_r, args)
     res = [('complex linearity', dec.decide(ctx, pairs(l, r, ctx)))]
-    mvx, _, _ = E.run(ctx, lambda pr, pi, xr, xi: _flat(build(e, pr, pi).mv(_cx(xr, xi))), pargs + _cargs('x', xin))
+    mvx, _, _ = E.run(ctx, lambda pr, pi, xr, xi: _flat(build(e, pr, pi).mv(_xin(xr, xi, xin))), pargs + _cargs('x', xin))
     nin, nout = op0.in_size(), op0.out_size()
     for name, f in (('as_matrix override', lambda op: op.as_matrix()), ('generic as_matrix', lambda op: AbstractLinearOperator.as_matrix(op))):
         if name == 'as_matrix override' and type(op0).as_matrix is AbstractLinearOperator.as_matrix:
@@ -243,7 +266,7 @@ def check_dense(e, twin=False):
 
         def dense(pr, pi, xr, xi, f=f):
             M = f(build(e, pr, pi))
-            x = _flat(_cx(xr, xi))
+            x = _flat(_xin(xr, xi, xin))
             if twin:
                 M = jnp.conj(M)
             return M @ x
@@ -267,7 +290,8 @@ def _concrete(e, model):
 def _cmodel(model, name, st):
     rs = _real_struct(st)
     r, i = model_tree(model, name + 'r', rs), model_tree(model, name + 'i', rs)
-    return jax.tree.map(lambda a, b: jnp.asarray(np.asarray(a) + 1j * np.asarray(b), C128), r, i)
+    return jax.tree.map(lambda a, b, l: jnp.asarray(np.asarray(a) + 1j * np.asarray(b), C128) if jnp.issubdtype(l.dtype, jnp.complexfloating)
+                        else jnp.asarray(np.asarray(a), l.dtype), r, i, st)
 
 
 def replay(e, model, kind, twin=False):
@@ -290,6 +314,8 @@ def replay(e, model, kind, twin=False):
         y = _cmodel(model, 'y', xin)
         sc = lambda n: float(model_tree(model, n, S()))  # noqa: E731
         a, b = complex(sc('ar'), sc('ai')), complex(sc('br'), sc('bi'))
+        if not any(jnp.issubdtype(l_.dtype, jnp.complexfloating) for l_ in jax.tree.leaves(xin)):
+            a, b = a.real, b.real
         l = _flat(op.mv(jax.tree.map(lambda u, v: a * u + b * v, x, y)))
         r = _flat(jax.tree.map(lambda u, v: a * u + b * v, op.mv(x), op.mv(y)))
         return (not tol(l, r)), f'op(a x + b y) = {np.asarray(l)} vs a op(x) + b op(y) = {np.asarray(r)}'
@@ -427,3 +453,95 @@ def replay_arith(case, model, twin=False):
         got, want = (k * (a @ b)).mv(x), tm(lambda u: k * u, a.mv(b.mv(x)))
     g, w = np.asarray(_flat(got)), np.asarray(_flat(want))
     return (not np.allclose(g, w, rtol=1e-8, atol=1e-9)), f'{what}: library gives {g}, arithmetic of the operands gives {w} (k = {k})'
+
+
+# ---- complex scalars on REAL operators (C01: reduce() keeps the map; scalars are merged and moved by HomothetyRule) --------------
+def mixed_cases():
+    return ['k*P', 'W@H', 'D@H@D', '2*(A*k)', 'D-T@(k*W)', 'diag[D-T@(k*W),3*D]', '(k*W).T', 'k*(W@T)', '(k*A)@(l*D)', 'T@(k*W)@(l*T)', 'k*row[A,D]', 'col[A,W]@(k*D)']
+
+
+def _mixed_build(name, p, k, l):
+    """Real operators from the real parameter arrays p (dict), complex scalars k, l (0-d complex arrays)."""
+    from furax._base.blocks import BlockColumnOperator, BlockDiagonalOperator, BlockRowOperator
+    from furax._base.core import HomothetyOperator
+    from furax._base.dense import DenseBlockDiagonalOperator as Dense
+    from furax._base.diagonal import DiagonalOperator
+    from furax._base.indices import IndexOperator
+    s3, s2 = S(3), S(2)
+    A = Dense(p['A'], s3, 'ij,j->i')
+    W = Dense(p['W'], s3, 'ij,j->i')          # 3 -> 2
+    T = Dense(p['T'], s2, 'ij,j->i')          # 2 -> 3
+    D = DiagonalOperator(p['D'], in_structure=s3)
+    P = IndexOperator(jnp.array([0, 1, 2, 0, 1]), in_structure=s3)   # 3 -> 5 (tall)
+    if name == 'k*P':
+        return k * P
+    if name == 'W@H':
+        return W @ HomothetyOperator(k, s3)
+    if name == 'D@H@D':
+        return D @ HomothetyOperator(k, s3) @ D
+    if name == '2*(A*k)':
+        return 2 * (A * k)
+    if name == 'D-T@(k*W)':
+        return D - T @ (k * W)
+    if name == 'diag[D-T@(k*W),3*D]':
+        return BlockDiagonalOperator([D - T @ (k * W), 3 * D])
+    if name == '(k*W).T':
+        return (k * W).T
+    if name == 'k*(W@T)':
+        return k * (W @ T)
+    if name == '(k*A)@(l*D)':
+        return (k * A) @ (l * D)
+    if name == 'T@(k*W)@(l*T)':
+        return T @ (k * W) @ (l * T)
+    if name == 'k*row[A,D]':
+        return k * BlockRowOperator([A, D])
+    if name == 'col[A,W]@(k*D)':
+        return BlockColumnOperator([A, W]) @ (k * D)
+    raise ValueError(name)
+
+
+MIXED_PARAMS = {'A': S(3, 3), 'W': S(2, 3), 'T': S(3, 2), 'D': S(3)}
+
+
+def check_mixed_reduce(name, twin=False):
+    ctx = E.Ctx()
+    ctx.field = Field.get(4)
+    dec = Decider()
+    sc = S()
+    op0 = _mixed_build(name, {n: np.ones(s.shape) for n, s in MIXED_PARAMS.items()}, jnp.asarray(1 + 2j), jnp.asarray(2 - 1j))
+    xin = op0.in_structure()
+    args = [('p', MIXED_PARAMS, 'sym'), ('kr', sc, 'sym'), ('ki', sc, 'sym'), ('lr', sc, 'sym'), ('li', sc, 'sym'), ('x', xin, 'sym')]
+
+    def run(reduce):
+        def f(p, kr, ki, lr, li, x):
+            k = lax.complex(kr, -ki if (twin and reduce) else ki)
+            op = _mixed_build(name, p, k, lax.complex(lr, li))
+            return _flat((op.reduce() if reduce else op).mv(x))
+        return f
+    a, _, _ = E.run(ctx, run(False), args)
+    b, _, _ = E.run(ctx, run(True), args)
+    red0 = op0.reduce()
+    shp = lambda st: [tuple(l.shape) for l in jax.tree.leaves(st)]  # noqa: E731
+    if shp(red0.in_structure()) != shp(op0.in_structure()) or jax.tree.structure(red0.in_structure()) != jax.tree.structure(op0.in_structure()):
+        return violation(f'reduce() of {name} changes the input structure', signature=f'cplx-mixed-struct:{name}', kind='struct')
+    r = dec.decide(ctx, pairs(a, b, ctx))
+    common = dict(prims=sorted(ctx.prims), **dec.stats())
+    nob = common.pop('obligations')
+    if r.status == 'unsat':
+        return ok(obligations=nob, nontrivial=True, sample=dict(expression=name, note='complex scalars on real operators, reduce() vs unreduced', verdict='unsat'), **common)
+    if r.status == 'unknown':
+        return inconclusive('solver unknown', obligations=nob, **common)
+    return violation(f'reduce() changes the map of {name} (complex scalar k on real-valued operators)', model=r.model, signature=f'cplx-mixed:{name}', kind='cplx-mixed',
+                     twin=twin, obligations=nob, **common)
+
+
+def replay_mixed(name, model, twin=False):
+    p = model_tree(model, 'p', MIXED_PARAMS)
+    sc = lambda n: float(model_tree(model, n, S()))  # noqa: E731
+    k, l = complex(sc('kr'), sc('ki')), complex(sc('lr'), sc('li'))
+    op = _mixed_build(name, p, jnp.asarray(k), jnp.asarray(l))
+    x = model_tree(model, 'x', op.in_structure())
+    a = np.asarray(_flat(op.mv(x)))
+    opr = _mixed_build(name, p, jnp.asarray(np.conj(k) if twin else k), jnp.asarray(l)).reduce()
+    b = np.asarray(_flat(opr.mv(x)))
+    return (not np.allclose(a, b, rtol=1e-8, atol=1e-9)), f'{name} with k = {k}, l = {l}: unreduced gives {a}, reduce() gives {b}'
